@@ -192,6 +192,23 @@ impl C18 {
     if g.get_index() as i64 != i || (g.get_luck().get_index() == 0) != (i < 60) || g.get_luck().get_name() != if i < 60 { "吉" } else { "凶" } {
       out.fail(env, viol("god", "luck_class", case, &[("god", i)], format!("spirit #{} {}", i, g.get_name()), if i < 60 { "吉" } else { "凶" }.into(), g.get_luck().get_name()));
     }
+    // a spirit reached by stepping or by name is classed like the spirit it is
+    {
+      use tyme4rs::tyme::Tyme;
+      let size = 151i64;
+      for n in [1i64, -1, 59, 60, 61, 75, -75, 150, -150, 151] {
+        let j = (i + n).rem_euclid(size);
+        let s = g.next(n as isize);
+        if s.get_index() as i64 != j || s.get_luck().get_name() != if j < 60 { "吉" } else { "凶" } {
+          out.fail(env, viol("god", "luck_class_of_stepped_spirit", case, &[("god", i), ("n", n)], format!("spirit #{} {} .next({})", i, g.get_name(), n), format!("#{} {}", j, if j < 60 { "吉" } else { "凶" }), format!("#{} {} {}", s.get_index(), s.get_name(), s.get_luck().get_name())));
+          break;
+        }
+      }
+      let byname = God::from_name(&g.get_name());
+      if byname.get_index() as i64 != i || byname.get_luck().get_name() != g.get_luck().get_name() {
+        out.fail(env, viol("god", "luck_class_of_spirit_by_name", case, &[("god", i)], format!("God::from_name({})", g.get_name()), format!("#{} {}", i, g.get_luck().get_name()), format!("#{} {}", byname.get_index(), byname.get_luck().get_name())));
+      }
+    }
   }
 
   /// a = [lunar year]: kitchen-god attributes
